@@ -10,6 +10,7 @@ pub mod c07;
 pub mod c13;
 pub mod c14;
 pub mod c15;
+pub mod c18;
 pub mod env;
 
 /// splitmix64: every random choice of a run derives from `VERIF_SEED`.
@@ -248,6 +249,8 @@ pub fn silence_panics() {
     std::panic::set_hook(Box::new(|info| {
         if IN_CATCH.with(|c| c.get()) == 0 {
             eprintln!("harness panic: {}", info);
+        } else if std::env::var("VERIF_DEBUG_PANICS").is_ok() {
+            eprintln!("caught panic: {}", info);
         }
     }));
 }
@@ -300,6 +303,7 @@ pub fn main() {
         "C13" => c13::run(&opts),
         "C14" => c14::run(&opts),
         "C15" => c15::run(&opts),
+        "C18" => c18::run(&opts),
         other => {
             eprintln!("unknown property {}", other);
             std::process::exit(2);
